@@ -171,6 +171,22 @@ func TestVfC12(t *testing.T) {
 			}
 		}
 	}
+	// faithful backend, reads that start at an offset: the FIRST read goes through the backend,
+	// the second is a local hit; both must deliver exactly [offset, n)
+	if shard == 0 {
+		for _, o := range objs {
+			if o.kind != cache.CAS {
+				continue
+			}
+			for _, zstd := range []bool{false, true} {
+				for _, known := range []bool{true, false} {
+					for _, off := range []int64{1, int64(len(o.logical)) / 2, int64(len(o.logical)) - 1} {
+						vf12OffsetCell(rep, dir, mode, o, known, zstd, off, maxProxy)
+					}
+				}
+			}
+		}
+	}
 	for _, c := range []string{"stream-error", "short-stream", "size-metadata", "error", "not-found", "none"} {
 		if classes[c] == 0 && nshards == 1 {
 			rep.BrokenHarness("fault class %s never exercised", c)
@@ -302,4 +318,45 @@ func vf12Cell(rep *vlib.Report, dir, mode string, o vf12Obj, known, zstd bool, f
 	if strings.HasSuffix(f1.name, "-at-7") {
 		rep.Sample(map[string]interface{}{"cell": id, "first": r1.class, "second": r2.class, "local_only": r3.class})
 	}
+}
+
+func vf12OffsetCell(rep *vlib.Report, dir, mode string, o vf12Obj, known, zstd bool, off int64, maxProxy int64) {
+	rep.Eval()
+	vfCleanHot(dir)
+	px := vlib.NewFakeProxy()
+	cc, err := New(dir, 1<<20, WithStorageMode(mode), WithAccessLogger(vlib.SilentLogger()), WithProxyBackend(px), WithProxyMaxBlobSize(maxProxy))
+	if err != nil {
+		rep.BrokenHarness("disk.New: %v", err)
+		return
+	}
+	defer func() { VfDrain(cc); VfShutdown(cc) }()
+	px.Set(o.kind, o.hash, o.stored, int64(len(o.logical)))
+	size := int64(-1)
+	if known {
+		size = int64(len(o.logical))
+	}
+	id := fmt.Sprintf("mode=%s kind=%s size_known=%v zstd_read=%v offset=%d of %d (faithful backend)", mode, o.kind, known, zstd, off, len(o.logical))
+	for _, step := range []string{"through the backend", "local hit"} {
+		var rc io.ReadCloser
+		var err error
+		if zstd {
+			rc, _, err = cc.GetZstd(context.Background(), o.hash, size, off)
+		} else {
+			rc, _, err = cc.Get(context.Background(), o.kind, o.hash, size, off)
+		}
+		if err != nil || rc == nil {
+			rep.Violate("C12 read at an offset not served "+step, fmt.Sprintf("%s: err=%v reader=%v", id, err, rc != nil), nil)
+			return
+		}
+		data, rerr := io.ReadAll(rc)
+		_ = rc.Close()
+		if rerr == nil && zstd {
+			data, rerr = vlib.ZstdDecodeAll(data)
+		}
+		if rerr != nil || !bytes.Equal(data, o.logical[off:]) {
+			rep.Violate("C12 read at an offset "+step+" delivers other bytes than [offset, n)", fmt.Sprintf("%s: %s: %d bytes (want %d), err=%v, equal to the whole blob: %v", id, step, len(data), int64(len(o.logical))-off, rerr, bytes.Equal(data, o.logical)), nil)
+			return
+		}
+	}
+	rep.Nontrivial(id)
 }
